@@ -24,20 +24,49 @@ def parseOp : List String → Option Op
   | ["hdrop"] => some .hdrop
   | _ => none
 
+/-- the atomic operations of one model step -/
+def stepAtoms (s : Sys) : Op → List Atom
+  | .poll f t fire =>
+    match findFut s f with
+    | some fu => if fu.l.done then [] else lockAtoms (s.c.polled f) fu.l f t fire
+    | none => []
+  | .dropFut f =>
+    match findFut s f with
+    | some fu => lockDropAtoms (s.c.polled f) fu.l
+    | none => []
+  | .tryLock g _ => if fresh s g && 0 < s.handles then tryLockAtoms s.c else []
+  | .dropGuard g =>
+    match findGuard s g with
+    | some _ => unlockAtoms s.c
+    | none => []
+  | _ => []
+
+/-- settle = the polls it makes -/
+def settleAtoms (s : Sys) : Nat → List Atom
+  | 0 => []
+  | fuel + 1 =>
+    match minOf s.c.woken with
+    | none => []
+    | some f =>
+      let op := Op.poll f (lastWaker s f) false
+      stepAtoms s op ++ settleAtoms (next s op) fuel
+
 def exec (s : Sys) (toks : List String) : Sys × String :=
   match toks with
   | ["settle", b] =>
     match num? b with
     | some bound =>
       let r := settleLoop s bound 0
-      (r.1, obs s!"settled {r.2}" (newWakes s.c.log r.1.c.log) (snapshot r.1))
+      (r.1, obs s!"settled {r.2}" (newWakes s.c.log r.1.c.log)
+        (snapshot r.1 ++ " at=" ++ fmtAtoms (settleAtoms s bound)))
     | none => (s, "bad-op")
   | _ =>
     match parseOp toks with
     | some op =>
       let r := step s op
       if r.2 == .bad then (s, "bad-op")
-      else (r.1, obs (outStr r.2) (newWakes s.c.log r.1.c.log) (snapshot r.1))
+      else (r.1, obs (outStr r.2) (newWakes s.c.log r.1.c.log)
+        (snapshot r.1 ++ " at=" ++ fmtAtoms (stepAtoms s op)))
     | none => (s, "bad-op")
 
 /-- coverage label of a poll: which branch of `lockPoll` it takes -/
